@@ -96,6 +96,13 @@ def build_native(repo='/repo', log=None):
     binpath = os.path.join(bindir, 'zinoma-zx-' + key)
     if os.path.exists(binpath):
         return binpath, {'cached': True, 'key': key, 'build_s': 0.0}
+    # one build at a time: the cargo target directory is shared, and the binary must be copied before another tree is built into it
+    import fcntl
+    lockf = open(os.path.join(CACHE, 'build.lock'), 'w')
+    fcntl.flock(lockf, fcntl.LOCK_EX)
+    if os.path.exists(binpath):
+        lockf.close()
+        return binpath, {'cached': True, 'key': key, 'build_s': 0.0}
     scratch_root = os.environ.get('VERIF_SCRATCH', '/var/tmp')
     scratch = tempfile.mkdtemp(prefix='zx-native-', dir=scratch_root)
     try:
@@ -108,13 +115,16 @@ def build_native(repo='/repo', log=None):
         r = subprocess.run(['cargo', 'build', '--offline', '--bin', 'zinoma'], cwd=scratch, env=env, capture_output=True, text=True)
         if r.returncode != 0:
             raise RuntimeError('native build failed:\n' + r.stderr[-4000:])
-        shutil.copy(os.path.join(CACHE, 'native-target', 'debug', 'zinoma'), binpath)
-        # keep only the most recent few binaries
+        shutil.copy(os.path.join(CACHE, 'native-target', 'debug', 'zinoma'), binpath + '.tmp')
+        os.replace(binpath + '.tmp', binpath)
+        # keep the most recent binaries; never one that a concurrent check may still be using
         olds = sorted((os.path.getmtime(os.path.join(bindir, f)), f) for f in os.listdir(bindir))
-        for _, f in olds[:-4]:
-            os.unlink(os.path.join(bindir, f))
+        for mt, f in olds[:-12]:
+            if time.time() - mt > 3600:
+                os.unlink(os.path.join(bindir, f))
     finally:
         shutil.rmtree(scratch, ignore_errors=True)
+        lockf.close()
     return binpath, {'cached': False, 'key': key, 'build_s': round(time.time() - t0, 1)}
 
 
